@@ -62,6 +62,9 @@ fn finish(_tier: Tier, rep: &mut Report) {
     if rep.get("drain[vectored]") == 0 || rep.get("drain[advance_across_seam]") == 0 {
         rep.inconclusive("a consumption pattern was never exercised");
     }
+    if rep.get("skip_crosses_seam") < 10_000 {
+        rep.inconclusive("fewer than 10000 single advances across the header/payload seam");
+    }
 }
 
 /// Payload Buf made of several non-contiguous segments (possibly empty ones in front).
@@ -265,6 +268,56 @@ fn check_encode(k: u64, payload: &[u8], segmented: bool, rng: &mut Rng, rep: &mu
             }
         }
         Err(e) => viol(rep, "decode-rejects-valid", format!("decode({}) failed: {:?}", hex_short(&expect, 16), e), case),
+    }
+    // skipping: one advance(n) for every n around the header/payload seam (and a few beyond) must
+    // leave exactly the suffix expect[n..], with remaining() agreeing
+    let total = expect.len();
+    let mut skips: Vec<usize> = (0..=total.min(12)).collect();
+    if total > 12 {
+        skips.push(total);
+        skips.push(13 + rng.usize(total - 12));
+    }
+    for n in skips {
+        rep.count("skip_checked");
+        let hdr = total - payload.len();
+        if n > hdr && !payload.is_empty() {
+            rep.count("skip_crosses_seam");
+        }
+        let r = crate::panics::catch(|| -> Result<(usize, Vec<u8>), String> {
+            if segmented {
+                let mut b = Datagram::new(sid, SegBuf::new(payload, &mut Rng::new(n as u64 ^ sid_raw))).encode();
+                b.advance(n);
+                let rem = b.remaining();
+                Ok((rem, drain(b, 0, &mut Rng::new(1), &mut Report::new())?))
+            } else {
+                let mut b = Datagram::new(sid, Bytes::copy_from_slice(payload)).encode();
+                b.advance(n);
+                let rem = b.remaining();
+                Ok((rem, drain(b, 0, &mut Rng::new(1), &mut Report::new())?))
+            }
+        });
+        let c2 = json!({"stream_id": sid_raw, "payload_len": payload.len(), "advance": n, "header_len": hdr, "segmented_payload": segmented});
+        match r {
+            Err(p) => {
+                viol(rep, "encode-panics", format!("advance({}) on the encoded datagram panicked: {} at {}", n, p.msg, p.loc), c2);
+                return;
+            }
+            Ok(Err(e)) => {
+                viol(rep, "encoded-buf-contract", format!("after advance({}): {}", n, e), c2);
+                return;
+            }
+            Ok(Ok((rem, rest))) => {
+                if rem != total - n || rest != expect[n..] {
+                    viol(
+                        rep,
+                        "encoded-buf-advance",
+                        format!("after one advance({}) over a {}-byte header: remaining() = {} (expected {}), rest = {} (expected {})", n, hdr, rem, total - n, hex_short(&rest, 12), hex_short(&expect[n..], 12)),
+                        c2,
+                    );
+                    return;
+                }
+            }
+        }
     }
     if rep.want_sample() && payload.len() < 8 && k > 63 {
         rep.sample(json!({"encode": {"stream_id": sid_raw, "payload": hex(payload)}, "expect_wire": hex(&expect), "drain_pattern": pattern}));
